@@ -46,11 +46,11 @@ THEOREM_CLASSES = {
     "C08_cache_fresh": "main",
     "C08_expected_is_nocache_run": "main",
     "C08_source_and_option_edits_show_in_text": "main",
-    "C08_cincdir_header_edits_fresh": "main",
+    "C08_cincdir_header_edits_fresh": "corollary",
     "C08_header_hash_needed": "refutation",
     "C08_cache_fresh_all_world_edits_refuted": "refutation",
     "C08_cflags_ldflags_release_change_command": "corollary",
-    "C08_heading_must_cover_link_options": "refutation",
+    "C08_heading_covering_command_needed": "refutation",
     "C08_cache_fresh_general_policy": "corollary",
     "C08_sufficient_policy": "corollary",
     "C08_strict_compare_needed": "refutation",
@@ -159,7 +159,22 @@ def _gen(ctx, problems):
     p_hash = bool(hm and fm and {"ccode", "ccinfotext", "ccmd"} <= hash_args
                   and "Compile hash: %s" in fm.group(1) and re.search(r"\bhash\b", fm.group(2)))
     # a repair may hash the contents of the local headers too
-    p_hdr_hashed = bool(hm and re.search(r"\bheaders?\b", hm.group(1)))
+    # (304728c) -- read structurally, not by the word "header": a table T filled, inside a loop over the
+    # #include "..." lines of the generated code and over compileopts.incdirs, with the CONTENTS
+    # fs.readfile(fs.join(incdir, name)) of the file, and table.concat(T) is part of the hashed string;
+    # the filling must come before the hash and nothing may reset T in between
+    p_hdr_hashed = False
+    if hm:
+        tm = re.search(r"\.\.\s*table\.concat\(\s*(\w+)\s*$", hm.group(1))       # [^)]* stops at the ')' of table.concat(T)
+        if tm:
+            T = tm.group(1)
+            pre = code[:hm.start()]
+            loop = re.search(r"local\s+%s\s*=\s*\{\}\s*"
+                             r"for\s+(\w+)\s+in\s+ccode:gmatch\('#include \"\(\[\^\"\\n\]\+\)\"'\)\s+do\s+"
+                             r"for\s+_\s*,\s*(\w+)\s+in\s+ipairs\(compileopts\.incdirs\)\s+do\s+"
+                             r"local\s+(\w+)\s*=\s*fs\.readfile\(fs\.join\(\2\s*,\s*\1\)\)\s+"
+                             r"if\s+\3\s+then\s+%s\[#%s\s*\+\s*1\]\s*=\s*\3\s+break\s+end\s+end\s+end" % (T, T, T), pre)
+            p_hdr_hashed = bool(loop and not re.search(r"\b%s\s*=[^=]" % T, pre[loop.end():]))
     p_cmd = bool(fm and "Compile command: %s" in fm.group(1) and re.search(r"\bccmd\b", fm.group(2)))
     # a repair may delete the slot's binary when the C file is rewritten (before fs.makefile)
     mk = code.find("fs.makefile(cfile")
@@ -179,7 +194,7 @@ def _gen(ctx, problems):
            "Definition GENPOL : policy := mkPol %s %s %s %s %s %s.\n"
            "(* ticks per second used by the replayer; mtimes are whole seconds (lfs st_mtime) *)\n"
            "Definition TPS : Z := %d%%Z.\n" % (b(p_le), b(p_hash), b(p_size), b(p_reuse_out), b(p_nohead_cache), b(p_del), TPS))
-    txt += "(* compile_code hashes the local headers the generated code includes (a repair; false today) *)\nDefinition HEADERS_HASHED : bool := %s.\n" % b(p_hdr_hashed)
+    txt += "(* compile_code hashes the local headers the generated code includes (since 304728c: read structurally from the loop over the #include lines and incdirs) *)\nDefinition HEADERS_HASHED : bool := %s.\n" % b(p_hdr_hashed)
     # tie fact: compile_code records the command compile_binary executes - both build it from the same
     # get_compiler_cflags(compileopts), nothing appended (comments stripped)
     mcb = re.search(r"function compiler\.compile_binary\(.*?\nend", cc, re.S)
